@@ -21,6 +21,15 @@ CLAIMED = {
                 note='Trusted: z3, AST rewrite, the recursive reference evaluator, floats-as-reals for \\ifdim. Operands are registers (normal form: no literal termination issue). '
                      'Mode tests and \\ifcat/\\if/\\ifcsname are outside the generated heads.',
                 ref='DESIGN.md section 5 C03'),
+    'C04': dict(level='model_checking',
+                text='Bounded exhaustive over scoping programs written as LaTeX source: outer x inner scope of every kind ({ }, \\begingroup, environment, $ $, macro argument, '
+                     'tabular cell) with local/global definitions, \\let and catcode changes before/inside/after the inner scope (quick: a seed-rotated ninth of the 125 edit '
+                     'triples per scope pair, thorough: all); an observer macro records at five points the stack depth, name membership, keys(), visible meanings and '
+                     'whichCode(q) for an UNBOUNDED symbolic query character q - so \"for every character the table after the group equals the table before\" is proved by z3 per '
+                     'path; environments closed over 1-3 unclosed groups; one (thorough: two) direct Context API operations from stacks of 0-3 frames vs a frame model.',
+                note='Trusted: z3, AST rewrite, the frame model (innermost live definition wins, \\gdef writes the global frame, copy-on-write catcodes). '
+                     'Unbalanced input other than unclosed groups inside an environment is outside the claim.',
+                ref='DESIGN.md section 5 C04'),
     'C05': dict(level='model_checking',
                 text='Bounded exhaustive over literal and invocation skeletons written as source characters: integer literals (sign runs, decimal/octal/hex/character code, '
                      'digit characters drawn from the digit range plus its neighbours so early termination is a feasible branch, count registers with unbounded values), '
